@@ -73,7 +73,8 @@ func connect(transport string, rng *rand.Rand, progress *int64, fin func(qnet.En
 	case "ctl":
 		a, b := ctl.Pair("sender", "receiver", progress)
 		a.Yield = rng.Intn(3)
-		b.ReadChunk = func(rem int) int { return 1 + rng.Intn(8192) }
+		rrng := rand.New(rand.NewSource(rng.Int63())) // used by the receiver's reader goroutine only
+		b.ReadChunk = func(rem int) int { return 1 + rrng.Intn(8192) }
 		return qnet.NewEndPoint(a), qnet.EndPointFinalizer(b, fin), func() {}, nil
 	case "netpipe":
 		a, b := gonet.Pipe()
